@@ -87,8 +87,13 @@ Theorem C20_width_control_char_refuted :
 Proof. exact width_control_char_refuted. Qed.
 Print Assumptions C20_width_control_char_refuted.
 
+(** the defect repaired by /repo 63452b4: before the repair the wrapper was not reset between text
+    pieces, so after a piece ending in a blank line the carry-over "indent" was the newline itself;
+    the repaired function resets after every line that ended with a newline *)
 Theorem C20_styled_stale_carryover :
-  styled_wrap w1 utf8_len_std [(true, [10]); (false, [27; 91; 49; 109]); (true, [32; 97])] 0
-  = [10; 27; 91; 49; 109; 10; 10; 97].
+  styled_wrap_before_fix w1 utf8_len_std [(true, [10]); (false, [27; 91; 49; 109]); (true, [32; 97])] 0
+  = [10; 27; 91; 49; 109; 10; 10; 97]
+  /\ styled_wrap w1 utf8_len_std [(true, [10]); (false, [27; 91; 49; 109]); (true, [32; 97])] 0
+  = [10; 27; 91; 49; 109; 10; 32; 97].
 Proof. exact styled_stale_carryover_witness. Qed.
 Print Assumptions C20_styled_stale_carryover.
